@@ -35,6 +35,7 @@ import (
 	"sort"
 	"strings"
 
+	"github.com/jech/galene/diskwriter"
 	"github.com/jech/galene/group"
 	"github.com/jech/galene/rtpconn"
 	"github.com/jech/galene/token"
@@ -112,6 +113,7 @@ func NewWorld() (*World, error) {
 	w.TokenFile = filepath.Join(w.DataDir, "var", "tokens.jsonl")
 	group.Directory = w.Dir
 	group.DataDirectory = w.DataDir
+	diskwriter.Directory = filepath.Join(root, "recordings")
 	token.SetStatefulFilename(w.TokenFile)
 	return w, nil
 }
